@@ -798,6 +798,49 @@ def rule_pw_pad(ctx, f):
                   b["span"], detail="len < 32 ? pass + PADDING[..32 - len] : pass[..32]")
 
 
+def rule_alg2f(ctx, f):
+    """seeded C06-9: Algorithm 2 step f - the four 0xFF bytes enter the key hash only for revision 4 or greater with /EncryptMetadata false; a
+    revision 2/3 dictionary may carry the (meaningless) entry, and hashing the bytes there rejects the right password"""
+    ctx.rule("C06-ALG2f", "the hash update with the four 0xFF bytes (Algorithm 2 step f) is dominated by a test of the revision against 4 and by a test "
+             "of the dictionary's encrypt_metadata field")
+    n = 0
+    for b in f.bodies.values():
+        if not b["id"].startswith("crypt::"):
+            continue
+        sites = []
+        fl = None
+        for bi, t in F.calls(b):
+            if last_seg(F.callee_name(t)) not in ("consume", "update", "chain_update") or len(t["args"]) < 2:
+                continue
+            al = F.op_local(t["args"][1])
+            if al is None:
+                continue
+            fl = fl or Flow(b)
+            at = fl.origins(al)
+            ff = [a for a in at if a[0] == "const" and a[1].get("int") == 255]
+            pure = not [a for a in at if a[0] in ("call", "arg")]
+            lit = any(a[0] == "agg" and a[1].get("k") == "array" for a in at) and len(ff) == 4            # [0xff, 0xff, 0xff, 0xff]
+            rep = len(ff) == 1 and len(at) == 1 and "[u8; 4]" in b["locals"][al]["s"]                      # [0xff; 4]
+            prom = any(a[0] == "const" and a[1].get("bytes") == "\xff" * 4 for a in at)                     # a promoted / named constant
+            if pure and (lit or rep or prom):
+                sites.append((bi, t))
+        if not sites:
+            continue
+        cfg = CFG(b)
+        rev = [bi for bi, bb in enumerate(b["blocks"]) for st in bb["stmts"] if st[0] == "assign" and st[2][0] == "binop" and
+               ((st[2][1] in ("Ge", "Lt") and 4 in (F.const_int(st[2][2]), F.const_int(st[2][3]))) or
+                (st[2][1] in ("Gt", "Le") and 3 in (F.const_int(st[2][2]), F.const_int(st[2][3]))))]
+        em = [bi for bi, bb in enumerate(b["blocks"]) for st in bb["stmts"] if st[0] == "assign" and "'encrypt_metadata'" in str(st[2])]
+        for bi, t in sites:
+            n += 1
+            okr = any(r == bi or cfg.dominates(r, bi) for r in rev)
+            oke = any(r == bi or cfg.dominates(r, bi) for r in em)
+            ctx.check(okr and oke, "C06-ALG2f", "%s#ff-bytes" % b["id"], "the four 0xFF bytes are hashed into the key without a dominating test of %s: a revision 2/3 "
+                      "document whose /Encrypt dictionary carries /EncryptMetadata false derives another key and the right password is rejected" %
+                      ("the revision against 4" if not okr else "encrypt_metadata"), t["span"], detail="step f under revision >= 4 and !encrypt_metadata")
+    ctx.floor("C06-ALG2f", n, 1, "hash updates with the constant 0xFFFFFFFF in the key derivation")
+
+
 def run(ctx):
     f = F.load("default")
     ctx.count("bodies", len(f.bodies))
@@ -812,6 +855,7 @@ def run(ctx):
     rule_table(ctx, f)
     rule_padding(ctx, f)
     rule_pw_pad(ctx, f)
+    rule_alg2f(ctx, f)
     return ctx.finish(
         "Static analysis of MIR facts of crypt.rs / file.rs / parser: slice-length upper bounds of cipher keys against the "
         "cipher's key size; dominance of decrypt over filter application; dominance of the three exemption tests over every "
